@@ -16,18 +16,19 @@ ActOf(e) == CASE e.e = "FinishOptionParsing" -> "FinishOptions"
               [] e.e = "Killed" -> "Deliver"
               [] e.e = "Poll" -> "Poll"
               [] e.e = "ReportResults" -> "BeginReport"
+              [] e.e = "BackendDtor" -> "Teardown"
               [] e.e = "End" -> "End"
               [] OTHER -> "?"
 
 InvNames(s, st) ==
   (IF NotLost(s, st) THEN {} ELSE {"NotLost"}) \cup (IF Interruptible(s, st) THEN {} ELSE {"Interruptible"}) \cup
   (IF EveryCallback(s, st) THEN {} ELSE {"EveryCallback"}) \cup (IF Third(s, st) THEN {} ELSE {"Third"}) \cup
-  (IF Exported(s, st) THEN {} ELSE {"Exported"})
+  (IF Exported(s, st) THEN {} ELSE {"Exported"}) \cup (IF AfterTeardown(s, st) THEN {} ELSE {"AfterTeardown"})
 
 \* the recorded values of an event against the state after the transition
 Observed(s, pre, st, e) ==
-  CASE e.e = "Raised" -> (IF e.cb = (IF pre.reg THEN 1 ELSE 0) /\ e.bad = 0 THEN {} ELSE {"callback"}) \cup
-                         (IF e.stop = 1 THEN {} ELSE {"stop"}) \cup (IF st.exit = -1 THEN {} ELSE {"third-survived"})
+  CASE e.e = "Raised" -> (IF e.cb = (IF pre.reg THEN 1 ELSE 0) /\ e.bad = 0 THEN {} ELSE {IF pre.pc = "teardown" THEN "call-into-destroyed-backend" ELSE "callback"}) \cup
+                         (IF e.stop = 1 \/ pre.pc = "teardown" THEN {} ELSE {"stop"}) \cup (IF st.exit = -1 THEN {} ELSE {"third-survived"})
     [] e.e = "Killed" -> IF st.exit = 1 /\ e.rc = 1 THEN {} ELSE {"third-exit"}
     [] e.e = "Poll"   -> IF (e.stop = 1) = st.stop THEN {} ELSE {"stop"}
     [] e.e = "End"    -> (IF e.rc = 0 THEN {} ELSE {"exit-status"}) \cup
